@@ -1,4 +1,78 @@
-import MythVerif.Model.PiDag
-/-! # C19 — placeholder while the proofs are being written -/
+import MythVerif.Proofs.PiDagCert
+import MythVerif.Proofs.PiDagIntern
+/-!
+# C19 — DAG files are well formed and survive a dump / read / convert round trip
+
+Model: `MythVerif.PiDag` (`Model/PiDag.lean`): the position independent DAG (`T`, `E`, `S`),
+`flatten` = `dr_make_pi_dag`, `shrink` = `dr_copy_pi_dag` (the `dag2any --shrink` path),
+`wellFormed` = an executable checker of everything C19 asks of a dumped / converted DAG (offsets
+inside the DAG, children contiguous, edge endpoints leaves of the DAG, edges grouped by source with
+`edges_begin/end` a partition of `E`, `m` = the counted number, string indices inside a
+duplicate-free table, and an elimination order certifying that every leaf is reachable),
+`replayWith pick` = `dr_pi_dag_chronological_traverse` with an arbitrary dequeue order.
+
+What is proved here for ALL inputs: the checker is sound for the replay postcondition
+(`C19_wf_replay`: any DAG — of any size, produced by whatever recording / contraction /
+conversion — that `wellFormed` accepts is traversed completely, each leaf exactly once, whatever
+the event order), and the string table discipline (`C19_intern`).  That every `flatten` /
+`shrink` output is accepted by the checker is NOT proved in general (see the `_partial`
+theorems and the full statements next to them): it is established per run by executing the
+verified checker on every dumped and converted DAG (check/props/c19.py), the model's arrays being
+compared field by field with the implementation's.  File I/O is not modelled.
+-/
 namespace MythVerif.PiDag
+open MythVerif.DagRec
+
+/-- **soundness of the checker for the chronological replay**: if `wellFormed G`, then for EVERY
+    order in which pending events are dequeued (`pick`; the C code's heap is one such order) the
+    traversal terminates with an empty event queue, has made ready / started / last-started /
+    ended every leaf exactly once and touched no inner node, and ends with nothing running and
+    nothing ready. -/
+theorem C19_wf_replay (G : PiDag) (h : wellFormed G = true) (pick : List Event → Nat) :
+    (replayWith pick G (4 * G.T.size + 4) (initReplay G)).queue = [] ∧
+    (∀ i, i < G.T.size →
+      (replayWith pick G (4 * G.T.size + 4) (initReplay G)).readied[i]! = (if isLeaf G.T[i]! then 1 else 0) ∧
+      (replayWith pick G (4 * G.T.size + 4) (initReplay G)).started[i]! = (if isLeaf G.T[i]! then 1 else 0) ∧
+      (replayWith pick G (4 * G.T.size + 4) (initReplay G)).lastStarted[i]! = (if isLeaf G.T[i]! then 1 else 0) ∧
+      (replayWith pick G (4 * G.T.size + 4) (initReplay G)).ended[i]! = (if isLeaf G.T[i]! then 1 else 0)) ∧
+    (replayWith pick G (4 * G.T.size + 4) (initReplay G)).nRunning = 0 ∧
+    (replayWith pick G (4 * G.T.size + 4) (initReplay G)).nReady = 0 :=
+  replay_final pick G (rankOf G) (cert_of_wf G h)
+
+/-- in particular for the time-ordered traversal of the C code (`replay` dequeues a minimal time stamp) -/
+theorem C19_wf_replay_chronological (G : PiDag) (h : wellFormed G = true) :
+    (replay G).queue = [] ∧ (replay G).nRunning = 0 ∧ (replay G).nReady = 0 ∧
+    ∀ i, i < G.T.size → (replay G).started[i]! = (if isLeaf G.T[i]! then 1 else 0) ∧
+      (replay G).ended[i]! = (if isLeaf G.T[i]! then 1 else 0) := by
+  obtain ⟨h1, h2, h3, h4⟩ := C19_wf_replay G h pickMin
+  exact ⟨h1, h3, h4, fun i hi => ⟨(h2 i hi).2.1, (h2 i hi).2.2.2⟩⟩
+
+/-- **string table**: interning any sequence of file names (any number of distinct names, any
+    repetitions) yields a duplicate-free table; every index handed out is inside the table and
+    names the string it was handed out for; hence two positions get the same index iff they
+    carry the same name. -/
+theorem C19_intern (names : List Nat) :
+    (internAll [] names).1.Nodup ∧
+    (internAll [] names).2.length = names.length ∧
+    (∀ k (hk : k < names.length), ((internAll [] names).2)[k]! < (internAll [] names).1.length ∧
+      (internAll [] names).1[((internAll [] names).2)[k]!]? = some names[k]) ∧
+    (∀ j k (hj : j < names.length) (hk : k < names.length),
+      ((internAll [] names).2)[j]! = ((internAll [] names).2)[k]! ↔ names[j] = names[k]) := by
+  obtain ⟨h1, _, h3, h4⟩ := internAll_spec names [] List.nodup_nil
+  have hlt : ∀ k (hk : k < names.length), ((internAll [] names).2)[k]! < (internAll [] names).1.length := by
+    intro k hk
+    have := h4 k hk
+    exact (List.getElem?_eq_some_iff.mp this).1
+  refine ⟨h1, h3, fun k hk => ⟨hlt k hk, h4 k hk⟩, ?_⟩
+  intro j k hj hk
+  constructor
+  · intro e
+    have a := h4 j hj; have b := h4 k hk
+    rw [e, b] at a
+    exact (Option.some.inj a).symm
+  · intro e
+    have a := h4 j hj; have b := h4 k hk
+    rw [e, ← b] at a
+    exact (List.getElem?_inj (hlt j hj) h1).mp a
+
 end MythVerif.PiDag
